@@ -89,6 +89,13 @@ Combine(s, g, flip) ==
     /\ CanCombine(T(s), g)
     /\ LET qc == IF flip THEN -T(s).legs[g[1]].qconj ELSE T(s).legs[g[1]].qconj IN
        Store(OpCombine(T(s), g, qc, TRUE, TRUE), [op |-> "combine_legs", a |-> s, group |-> g, qconj |-> qc])
+\* combine_legs(group, new_axes=[na]) with an explicit position of the pipe in the result (the harness passes it as a
+\* non-negative or as the equivalent negative index, counted from the end of the RESULT)
+CombineAt(s, g, na, neg) ==
+    /\ CanCombine(T(s), g)
+    /\ LET qc == T(s).legs[g[1]].qconj IN
+       Store(OpCombineG(T(s), <<g>>, <<qc>>, <<na>>, TRUE, TRUE),
+             [op |-> "combine_legs_at", a |-> s, group |-> g, qconj |-> qc, na |-> na, neg |-> neg])
 Split(s, x) == /\ CanSplit(T(s), x)
                /\ Store(OpSplit(T(s), x), [op |-> "split_legs", a |-> s, x |-> x])
 TakeSlice(s, i, x) ==
@@ -170,7 +177,8 @@ ChAddByLabels == CanChoose("AddByLabels") /\ \E a, b \in U, z \in {<<1, 0>>, <<-
                     CanAddByLabels(T(a), T(b)) /\ (inpl => Free(a)) /\ Choose([op |-> "add_by_labels", a |-> a, b |-> b, z |-> z, inpl |-> inpl])
 ChScale == CanChoose("Scale") /\ \E s \in U, z \in (Scalars \ {<<1, 0>>}) \cup {<<0, 0>>}, o \in {"scale", "iscale_prefactor"} : (o = "iscale_prefactor" => Free(s)) /\ Choose([op |-> o, a |-> s, z |-> z])
 ChCombine == CanChoose("Combine") /\ \E s \in U : \E k \in 1..3 : k <= R(s) /\ \E g \in InjSeqs(R(s), k), flip \in BOOLEAN :
-                Choose([op |-> "combine_legs", a |-> s, group |-> g, flip |-> flip])
+                \/ Choose([op |-> "combine_legs", a |-> s, group |-> g, flip |-> flip])
+                \/ (k >= 2 /\ \E na \in 1..(R(s) - k + 1) : Choose([op |-> "combine_legs_at", a |-> s, group |-> g, na |-> na, neg |-> flip]))
 ChSplit == CanChoose("Split") /\ \E s \in U : \E x \in 1..R(s) : CanSplit(T(s), x) /\ Choose([op |-> "split_legs", a |-> s, x |-> x])
 ChTakeSlice == CanChoose("TakeSlice") /\ \E s \in U : \E x \in 1..R(s) : R(s) >= 2 /\ \E i \in 0..(IndLen(T(s).legs[x]) - 1) :
                   Choose([op |-> "take_slice", a |-> s, i |-> i, x |-> x])
@@ -249,6 +257,7 @@ Perform ==
       [] P.op = "iscale_prefactor" -> IScale(P.a, P.z)
       [] P.op = "combine_legs" -> Combine(P.a, P.group, P.flip)
       [] P.op = "split_legs" -> Split(P.a, P.x)
+      [] P.op = "combine_legs_at" -> CombineAt(P.a, P.group, P.na, P.neg)
       [] P.op = "take_slice" -> TakeSlice(P.a, P.i, P.x)
       [] P.op = "iproject" -> Project(P.a, P.keep, P.x)
       [] P.op = "permute" -> Permute(P.a, P.perm, P.x)
